@@ -1,4 +1,5 @@
 """Read path and lifecycle family: C02 (inbound delivery integrity), C03 (connection lifecycle, dial result)."""
+from . import cs_life
 
 READ_RUN = {"harness": "hread", "driver": "gatedrv", "fields": None, "corpus": "life",
             "quick": {"n": 500, "shards": 16}, "thorough": {"n": 2500, "shards": 32}}
@@ -24,7 +25,7 @@ PROPS = {
             "technique": "Lean 4 proof (inductive invariant over a small-step transition system, decreasing measure) + differential correspondence"},
         "lean": ["NbioVerif.Properties.C02"], "drivers": ["gatedrv"], "harness": ["hread"],
         "runs": [READ_RUN],
-        "oracles": ["c02-"],
+        "oracles": ["c02-"], "cs": cs_life.C02_CS,
         "rule": "case = (mode x sync/async x executor x ReadBufferSize x per-loop limit x transport x NPoller, op sequence of arrivals, "
                 "FIN/error/EINTR, faithful and duplicate reports, task steps incl. forced gate schedules); distinct by hash of "
                 "(configuration, op kinds with size classes relative to the buffer and the limit, event flags, task pause points); "
@@ -54,7 +55,7 @@ PROPS = {
             "technique": "Lean 4 proof (inductive invariant over a small-step transition system) + differential correspondence"},
         "lean": ["NbioVerif.Properties.C03"], "drivers": ["lifedrv"], "harness": ["hlife"],
         "runs": [LIFE_RUN],
-        "oracles": ["c03-"],
+        "oracles": ["c03-"], "cs": cs_life.C03_CS,
         "rule": "case = (epoll mode, NPoller, write-buffer limit, history over up to four conns of kinds added/dialed/UDP listener+"
                 "sessions/accepted/really dialed: traffic, scripted kernel answers, dial outcomes, k concurrent closers with distinct "
                 "errors, deadlines, operations after close, Stop); distinct by hash of (configuration, op kinds with flags/answers/"
